@@ -33,6 +33,7 @@ CONSTANTS
   AsyncKinds,  \* subset of {"rv", "ae"} handled through `net'
   MaxNet,      \* messages in flight (async kinds)
   W,           \* weakenings in force (set of strings), {} for the real protocol
+  MayTimeout,  \* role script: the nodes whose election timer may fire (Node = no restriction)
   Gen          \* TRUE in behaviour-generation configurations: the free timing choices (sticky,
                \* stay) are fixed to the value the replay driver can enforce (contact lapsed)
 
@@ -175,7 +176,8 @@ LogOk(s, m) ==
 \* choice of the environment, see DESIGN.md 3.5
 HandleRV(s, m, sticky) ==
   LET reject(st) == [s |-> st, reply |-> [term |-> st.term, ok |-> FALSE]] IN
-  IF sticky /\ "NoStickiness" \notin W THEN reject(s)
+  \* (weakening StickyPrevoteOnly: the recent-contact guard applied to prevotes only)
+  IF sticky /\ "NoStickiness" \notin W /\ ("StickyPrevoteOnly" \notin W \/ m.pre) THEN reject(s)
   ELSE IF m.term < s.term THEN reject(s)
   ELSE
     LET s1 == IF ~m.pre /\ m.term > s.term THEN BecomeFollower(s, m.term, "rv")
@@ -249,7 +251,9 @@ HandleAE(s, m) ==
                  ELSE s1.commit
           \* a truncation at or below the configuration in force falls back to the committed one
           truncated == j # 0 /\ HasIdx(lg2, m.prev + j)
-          cfg2 == IF truncated /\ m.prev + j <= s1.cfg.idx /\ "NoConfigFallback" \notin W THEN s1.ccfg ELSE s1.cfg IN
+          \* (weakening FallbackFirstOnly: only when the first removed entry is itself a configuration)
+          cfg2 == IF truncated /\ m.prev + j <= s1.cfg.idx /\ "NoConfigFallback" \notin W
+                     /\ ("FallbackFirstOnly" \notin W \/ At(lg2, m.prev + j).k = "cfg") THEN s1.ccfg ELSE s1.cfg IN
       [s |-> [s1 EXCEPT !.log = lg3, !.commit = c, !.cfg = cfg2],
        reply |-> [term |-> s1.term, ok |-> TRUE, hint |-> 0]]
 
@@ -438,7 +442,7 @@ Up(n) == ns[n].role # "D"
 \* election(): the whole critical section run by the election loop when the timer fires
 TimerFire(n) ==
   LET s == ns[n] IN
-  /\ "rv" \notin AsyncKinds
+  /\ "rv" \notin AsyncKinds /\ n \in MayTimeout
   /\ s.role \in {"F", "P", "C"}
   /\ IsVoter(s, n) \/ "NonVoterCampaigns" \in W
   /\ s.term < MaxTerm
@@ -657,7 +661,7 @@ ReplRound(s, n) ==
 \* election(): as TimerFire, plus the requests of the round it starts
 TimerFireA(n) ==
   LET s == ns[n] IN
-  /\ "rv" \in AsyncKinds
+  /\ "rv" \in AsyncKinds /\ n \in MayTimeout
   /\ s.role \in {"F", "P", "C"} /\ IsVoter(s, n) /\ s.term < MaxTerm
   /\ Spend("timer")
   /\ LET s1 == IF s.role = "C" /\ (s.pre \/ "CandidateNoPrevote" \in W) THEN BecomeCandidate(s, n)
@@ -814,6 +818,13 @@ NoViolation == viol = {}
 \* used when looking for attack schedules: a violation an execution of the code can show
 NoOpViolation == "StateMachineSafetyOp" \notin viol
 NoStaleRead == "StaleRead" \notin viol
+
+\* C09: the configuration a node has in force is a configuration entry of its own log or lies
+\* within its snapshot
+CfgInLog ==
+  \A n \in Node : Up(n) =>
+    LET s == ns[n] IN
+    s.cfg.idx = 0 \/ s.cfg.idx <= s.log.base \/ (HasIdx(s.log, s.cfg.idx) /\ At(s.log, s.cfg.idx).k = "cfg")
 
 \* committed entries are on a majority of the voters' durable logs (C04, static membership)
 CommittedDurable ==
